@@ -32,6 +32,7 @@ func main() {
 		koracle  = flag.Bool("koracle", false, "run as kernel oracle helper")
 		evidence = flag.String("evidence", "", "evidence file")
 		variant  = flag.String("variant", "", "check variant")
+		probe    = flag.String("probe", "", "run one tape file and print the result (used for shrinking in fresh processes)")
 	)
 
 	flag.Parse()
@@ -85,6 +86,10 @@ func main() {
 		os.Exit(sim.RunReplay(p, *replay, *known))
 	}
 
+	if *probe != "" {
+		os.Exit(sim.RunProbe(p, *probe, *known, *tier))
+	}
+
 	if *budget == 0 {
 		*budget = 45 * time.Second
 		if *tier == "thorough" {
@@ -123,10 +128,18 @@ func main() {
 		extra = append(extra, "-variant", *variant)
 	}
 
+	var wenv []string
+
+	if sim.RaceBuild {
+		wenv = append(wenv, "GORACE=halt_on_error=0 exitcode=0 atexit_sleep_ms=0 log_path="+filepath.Join(root, ".work", "race", "log"))
+		_ = os.RemoveAll(filepath.Join(root, ".work", "race"))
+		_ = os.MkdirAll(filepath.Join(root, ".work", "race"), 0o755)
+	}
+
 	os.Exit(sim.RunParent(sim.ParentConfig{
 		Prop: p, Tier: *tier, Seed: seed, Jobs: *jobs, Budget: *budget, MaxRuns: *maxruns,
 		WorkDir: filepath.Join(root, ".work"), ReplayDir: *replays, KnownFile: *known, Evidence: *evidence,
-		Self: self, ExtraArgs: extra, Variant: *variant,
+		Self: self, ExtraArgs: extra, Variant: *variant, WorkerEnv: wenv,
 	}))
 }
 
